@@ -5,7 +5,7 @@ from . import core
 RULE = ("TLC (GenDegen.tla) enumerates the degeneracy grammar: 15 path-list shapes (no path, empty path, 1-2 points, duplicates, collinear, spike, "
         "coincident copies, zero area, explicitly closed, bow-tie, hole, mixtures) x shapes x 6 magnitude classes (1 .. 2^62) x 38 entry points "
         "(boolean paths/tree 64/D, offset paths/tree/D, RectClip(Lines), Minkowski, utilities, C exports, and two short call sequences: offset into a destroyed polytree then into paths, shared reusable containers with open paths) x parameters = 43 k calls; each call runs "
-        "in its own child under ASan+UBSan+LSan (USINGZ build for part of them; signed-overflow checks only for |coordinates| <= 2^29) with a 20 s "
+        "in its own child under ASan+UBSan+LSan (USINGZ build for part of them; signed-overflow checks only for |coordinates| <= 2^29) with a 30 s (retry 300 s) "
         "watchdog; single allocation faults are enumerated completely for the selected calls (allocation k = 1..N fails, N counted first); "
         "CallTrace.tla accepts only Call.Return.Destroyed(no leak) or, with a fault, Call.Throw(bad_alloc).Destroyed; evaluations = calls + fault "
         "runs; non-trivial = distinct (entry point, shapes, magnitude, parameters, fault index) whose call allocated memory or returned a result")
@@ -90,7 +90,7 @@ def replay_rec(rec):
             f.write(json.dumps(case) + "\n")
         a = {"in": inf, "skip": 0, "stride": 1}
         if rec.get("fault", 0) != 0:
-            a.update({"faults": 1, "maxfault": 3000})
+            a.update({"faults": 1, "maxfault": 3000, "onlyfault": rec["fault"]})
         j = {"variant": rec["harness"]["variant"], "args": a, "out": os.path.join(work, "out.ndjson")}
     run_jobs([j])
     res = core.validate_traces("CallTrace", "CallTrace.cfg", [j["out"]])
